@@ -32,6 +32,9 @@ TRUSTED_BASE = [
     'class Ex that absorbs the float constants of the source with their decimal-literal value',
 ]
 ASSUMPTIONS = [
+    'link contract: a packet handed to send_packet is a value (fresh object, never written again); under it the transmitted stream '
+    'equals the commanded one for every transmit delay (theorem C17_link_values_transmitted_as_commanded); that the real commanders '
+    'keep the contract is checked on every run by a link fake that queues packet references and serialises at transmit time',
     'the model\'s events are commander CALLS; that a call puts exactly its own packet on the wire whatever happened before on '
     'the same Crazyflie object (Commander / HighLevelCommander are stateless) is checked on every run by the packet-level oracle '
     '(real Commander over a recording send_packet, multi-flight histories) and proved per method by C08',
@@ -848,12 +851,27 @@ def check_wire(case, r, consts):
     and: every commander call puts exactly its own packet on the wire"""
     fails = []
     ver = r['version']
-    dec = [(w[0],) + decode_packet(w[1], w[2], w[3], ver) for w in r['wire']]
+    sent = [(w[0],) + decode_packet(w[1], w[2], w[3], ver) for w in r['wire']]      # commanded (snapshot at send time)
     period = float(r['period'])
+    # the link keeps packet references and serialises at transmit time: what went on the air must be what was commanded
+    air = r['air']
+    if len(air) != len(r['wire']):
+        fails.append(('wire_transmitted_differs_from_commanded', 'not every sent packet was transmitted', len(r['wire']), len(air)))
+        return fails
+    for i, (w, a) in enumerate(zip(r['wire'], air)):
+        if w[1:] != a[1:]:
+            fails.append(('wire_transmitted_differs_from_commanded',
+                          'packet %d was handed to the link at t=%s as %r but when the radio transmitted it (held %s packet(s) behind) '
+                          'it read %r: a sent packet must keep its value' % (i, w[0], sent[i][1:], case.get('radio'),
+                                                                             decode_packet(a[1], a[2], a[3], ver)),
+                          sent[i][1:], decode_packet(a[1], a[2], a[3], ver)))
+            break
+    # everything below is judged on the bytes actually transmitted, time-stamped with the send time
+    dec = [(w[0],) + decode_packet(a[1], a[2], a[3], ver) for w, a in zip(r['wire'], air)]
     for c in r['calls']:
         name, t, args, b, a = c
         exp = expected_packet(name, args)
-        got = [d[1:] for d in dec[b:a]]
+        got = [d[1:] for d in sent[b:a]]
         if exp is None:
             fails.append(('wire_unexpected_call', 'a helper called %s%r' % (name, args), 'stop/notify/hover/takeoff/land/go_to', name))
         elif got != [exp]:
@@ -876,6 +894,7 @@ def check_wire(case, r, consts):
                     if seg[-2:] != ['stop', 'notify']:
                         fails.append(('wire_mc_land_without_stop', 'flight %d: land() returned without STOP, release as its last packets' % (i + 1),
                                       ['stop', 'notify'], seg[-3:]))
+            fails += _air_displacement(case['flights'][i], fl, dec, consts, i)
             prev = None
             for d in dec[fl['w0']:fl['w1']]:
                 if d[1] == 'hover':
@@ -892,6 +911,54 @@ def check_wire(case, r, consts):
         if fl['alive_after'] or fl['flying_after']:
             fails.append(('wire_mc_exit_without_stop' if fl['kind'] == 'mc' else 'wire_hl_exit_without_stop',
                           'flight %d: still flying / thread alive after the context was left' % (i + 1), 0, [fl['alive_after'], fl['flying_after']]))
+    return fails
+
+
+def _air_displacement(flc, fl, dec, consts, i):
+    """blocking primitives of one MotionCommander flight: integrate the hover setpoints that went ON THE AIR over the duration
+    of the primitive; the result must be the requested displacement (height: difference of the streamed heights)"""
+    fails = []
+    marks = fl['marks']
+    vdef, rdef = float(Fraction(consts['vel'])), float(Fraction(consts['rate']))
+    hov = [d for d in dec[fl['w0']:fl['w1']] if d[1] == 'hover']
+    fl_ = lambda s, d=None: d if s is None else float(Fraction(s))  # noqa
+    for k, op in enumerate(flc['ops']):
+        if k + 1 >= len(marks) or not marks[k][1]:
+            continue
+        name = op[0]
+        t0, t1 = marks[k][2], marks[k + 1][2]
+        want = None
+        if name in MC_DISP:
+            want = {'x': MC_DISP[name][0] * fl_(op[1]), 'y': MC_DISP[name][1] * fl_(op[1]), 'z': MC_DISP[name][2] * fl_(op[1]), 'yaw': 0.0}
+        elif name == 'move_distance':
+            want = {'x': fl_(op[1]), 'y': fl_(op[2]), 'z': fl_(op[3]), 'yaw': 0.0}
+        elif name in ('turn_left', 'turn_right'):
+            want = {'x': 0.0, 'y': 0.0, 'z': 0.0, 'yaw': fl_(op[1]) * (1 if name == 'turn_left' else -1)}
+        elif name in ('circle_left', 'circle_right'):
+            ang = fl_(op[3], 360.0)
+            want = {'x': 2 * fl_(op[1]) * math.pi * ang / 360.0, 'y': 0.0, 'z': 0.0, 'yaw': ang * (1 if name == 'circle_left' else -1)}
+        if want is None:
+            continue
+        # value in force at time t = the last hover setpoint sent at a time <= t
+        before = [h for h in hov if h[0] <= t0]
+        inside = [h for h in hov if t0 < h[0] < t1]
+        upto = [h for h in hov if h[0] <= t1]
+        if not before or not upto:
+            continue
+        seq = [before[-1]] + inside
+        got = {'x': 0.0, 'y': 0.0, 'yaw': 0.0}
+        for j, h in enumerate(seq):
+            ta = max(h[0], t0)
+            tb = seq[j + 1][0] if j + 1 < len(seq) else t1
+            got['x'] += h[2] * (tb - ta)
+            got['y'] += h[3] * (tb - ta)
+            got['yaw'] += h[4] * (tb - ta)
+        got['z'] = upto[-1][5] - before[-1][5]
+        bad = [c for c in ('x', 'y', 'z', 'yaw') if abs(got[c] - want[c]) > 3e-5 * max(1.0, abs(want[c]))]
+        if bad:
+            fails.append(('wire_displacement_on_air', 'flight %d, %s%r: the hover setpoints that went on the air, integrated over the '
+                          'primitive, must give the requested displacement (%s differ)' % (i + 1, name, op[1:], ','.join(bad)),
+                          want, got))
     return fails
 
 
@@ -917,11 +984,18 @@ def gen_wire_case(rng):
         flights.append(fl)
     m = rng.random()
     sched = [] if m < 0.4 else ([0] * 120 if m < 0.6 else [rng.randrange(2) for _ in range(120)])
-    return {'kind': 'wire', 'version': rng.choice([10, 10, 10, 9, 8, 7]), 'sched': sched, 'flights': flights}
+    m = rng.random()
+    radio = [] if m < 0.25 else ([1] if m < 0.45 else ([rng.choice([2, 3])] if m < 0.6 else [rng.randrange(4) for _ in range(16)]))
+    return {'kind': 'wire', 'version': rng.choice([10, 10, 10, 9, 8, 7]), 'sched': sched, 'radio': radio, 'flights': flights}
 
 
 def fixed_wire_cases():
     return [
+        {'kind': 'wire', 'version': 10, 'sched': [], 'radio': [1], 'flights': [
+            {'kind': 'mc', 'default_height': None, 'ops': [['forward', '0.02', '0.2'], ['up', '0.2', None], ['turn_left', '90', None]]}]},
+        {'kind': 'wire', 'version': 8, 'sched': [0] * 40, 'radio': [2, 0, 1, 3], 'flights': [
+            {'kind': 'mc', 'default_height': None, 'ops': [['start_forward', None], ['start_left', '0.3'], ['wait', '0.5'], ['back', '0.2', '0.2']]},
+            {'kind': 'hl', 'ops': [['go_to', '1', '0', '1', None], ['down', '0.5', None]]}]},
         {'kind': 'wire', 'version': 10, 'sched': [], 'flights': [
             {'kind': 'mc', 'default_height': None, 'ops': [['forward', '0.2', None]]},
             {'kind': 'mc', 'default_height': None, 'ops': [['up', '0.2', None], ['raise']]},
@@ -1062,6 +1136,12 @@ def shrink_wire(cur, cls, consts):
         c2 = dict(cur, sched=[])
         if cls in _classes(c2, consts):
             cur = c2
+    for rd in ([], [1]):
+        if cur.get('radio') not in (None, [], rd):
+            c2 = dict(cur, radio=rd)
+            if cls in _classes(c2, consts):
+                cur = c2
+                break
     return cur
 
 
